@@ -567,7 +567,48 @@ def rule_R7(res, prog):
                      "without the issuer keyUsage test (via lines %s)" % (fa.relfile, esc[-1][1], [p_[1] for p_ in esc[-6:]]),
                      file=fa.relfile, line=esc[-1][1])
     res.instance(rid, "psX509AuthenticateCert: authStatus = PASS passes the issuer keyUsage test on every path from the loop head", esc is None, finding=f_)
-    res.floor(rid, 2)
+    # the `keyCertSign bit clear` outcome: a failing verdict (or an error return) on every path to the PASS store, except the
+    # grandfathering arm - keyUsage absent altogether (keyUsageFlags == 0) and issuedBefore() deciding.  Path-sensitive in the
+    # constants of the local result variable, so `rc = 1` in a new arm is seen skipping the verdict.
+    FAILS = set(v for n_, v in prog.const_names("PS_CERT_AUTH_FAIL").items() if v < 0)      # the verdicts, not the *_FLAG bits
+
+    def verdict(x):
+        for m in walk(x):
+            if m.get("k") == "bin" and m["op"] == "=" and (strip(m["l"]) or {}).get("f") == "authStatus":
+                r_ = strip(m["r"])
+                if r_ is not None and r_.get("k") == "int" and r_["v"] in FAILS:
+                    return True
+        return False
+
+    def absent_edge(b, k):
+        t = b.get("term")
+        if t is None or "c" not in t or len(b["succ"]) != 2:
+            return False
+        return any(txt.endswith("keyUsageFlags") and not tr for (txt, tr, nd) in cu._cond_atoms(t["c"], k == 0))
+    for (b, t, n) in tests:
+        if (strip(n["r"]) or {}).get("v") != KCS:
+            continue
+        # successor on which the bit is clear: `!(flags & KCS)` true, or `(flags & KCS)` false
+        atoms_true = cu._cond_atoms(t["c"], True)
+        clear_k = None
+        for k in (0, 1):
+            for (txt, tr, nd) in cu._cond_atoms(t["c"], k == 0):
+                if "keyUsageFlags & %d" % KCS in txt and not tr:
+                    clear_k = k
+        if clear_k is None or clear_k >= len(b["succ"]) or b["succ"][clear_k].get("b") is None:
+            continue
+        # constants known at the branch (locals declared with an initialiser inside the arm are picked up on the way)
+        e2 = cu.escapes_const(fa, b["succ"][clear_k]["b"], verdict, exempt_edge=absent_edge, target_expr=is_store)
+        f2 = None
+        if e2 is not None:
+            f2 = Finding(PROP, rid, fa.name, "keyCertSign missing but no failing verdict",
+                         "%s:%s psX509AuthenticateCert(): on the outcome `issuer keyUsage present without keyCertSign` a path (lines %s) reaches "
+                         "authStatus = PS_CERT_AUTH_PASS without a failing verdict and without the grandfathering test keyUsageFlags == 0: "
+                         "an issuer that is not allowed to sign certificates authenticates the subject" % (
+                             fa.relfile, t["ln"], [p_[1] for p_ in e2[-8:]]), file=fa.relfile, line=t["ln"])
+        res.instance(rid, "psX509AuthenticateCert:%s keyCertSign clear -> failing verdict unless keyUsage is absent (grandfathering)" % t["ln"],
+                     e2 is None, finding=f2)
+    res.floor(rid, 3)
 
 
 def rule_R8(res, prog):
